@@ -255,6 +255,8 @@ OnTlsc ==
 OnTlscStall ==
   /\ Is("tlsc_stall")
   /\ Ev.request_completed /\ Ev.request_result # "Ok" /\ Ev.task_ended_after_shutdown
+  \* no connection exists while the handshake is stalled: the listener must not have been told Connected
+  /\ Ev.state_during_stall = "Connecting"
   /\ UNCHANGED <<sc, up, tracker, nextId, conn, pend, evp, db, exp, cur>> /\ Step
 
 (***************************************************************************)
